@@ -360,7 +360,11 @@ pub fn judge(emu: &mut Emu, case: &StepCase, asp: &Aspects, open_quirks: &[Quirk
         Outcome::FetchFault => Some("instruction fetch outside mapped memory".to_string()),
         _ => None,
     };
-    let mut verdict = if let Some(w) = skip {
+    let mut verdict = if let (Outcome::FetchFault, true, EmuResult::Ok(_)) = (&pure.step.outcome, asp.state, &obs.result) {
+        // the effects of an instruction that cannot be fetched completely are not constrained, its
+        // outcome is: an error (C15)
+        Verdict::Fail("instruction fetch outside mapped memory must be an error, the step succeeded".to_string())
+    } else if let Some(w) = skip {
         Verdict::Skip(w)
     } else {
         match compare(case, &pre, &pure, &obs, &d_emu, asp) {
